@@ -19,6 +19,7 @@ import (
 	"time"
 
 	"github.com/goreleaser/nfpm/v2"
+	"github.com/goreleaser/nfpm/v2/files"
 )
 
 type concDesc struct {
@@ -369,6 +370,12 @@ func cmdC12(tier string, seed int64, out, statsOut, replay string) {
 	for ci := 0; ci < nCfg; ci++ {
 		gen := histConfig(g, ci*3) // every one with a tree and a per-format umask
 		doc := marshalConfig(&gen.cfg)
+		// the same with a payload of several MiB: block sizes and work splitting of the parallel compressors come into play
+		bigCfg := gen.cfg
+		bigCfg.Contents = append(append(files.Contents{}, gen.cfg.Contents...),
+			&files.Content{Source: "src/big2.bin", Destination: fmt.Sprintf("/opt/conc%d/big2-a.bin", ci)},
+			&files.Content{Source: "src/big2.bin", Destination: fmt.Sprintf("/opt/conc%d/big2-b.bin", ci)})
+		docBig := marshalConfig(&bigCfg)
 		var jobs []c12Job
 		runC12Case := func(w *caseWriter, id string, d concDesc, st *c12Stats) { jobs = append(jobs, c12Job{id, d}) }
 		for _, p := range procs {
@@ -381,6 +388,10 @@ func cmdC12(tier string, seed int64, out, statsOut, replay string) {
 			for k := 0; k < 2; k++ {
 				runC12Case(w, fmt.Sprintf("signed-%d-p%d-%d", ci, p, k), concDesc{YAML: doc, Files: gen.files, Mode: "signed",
 					Formats: []string{"deb", "rpm", "deb", "rpm", "deb", "rpm", "deb", "rpm", "apk", "apk", "deb", "rpm"}, Procs: p, Rounds: 1, Seed: seed + int64(ci)}, st)
+			}
+			// the format with a shared atomic counter and a parallel compressor, several at once
+			if ci == 0 || tier != "quick" {
+				runC12Case(w, fmt.Sprintf("same-%d-p%d-apk-big", ci, p), concDesc{YAML: docBig, Files: gen.files, Mode: "independent", Formats: []string{"apk", "apk", "apk"}, Procs: p, Rounds: 2, Seed: seed + int64(ci)}, st)
 			}
 			f := allFormats[(ci+p)%len(allFormats)]
 			runC12Case(w, fmt.Sprintf("same-%d-p%d-%s", ci, p, f), concDesc{YAML: doc, Files: gen.files, Mode: "independent", Formats: []string{f, f, f, f, f, f}, Procs: p, Rounds: rounds, Seed: seed + int64(ci)}, st)
